@@ -358,7 +358,8 @@ Inductive op :=
      (* [job.execute_async() by the caller, exceptions swallowed;] group.add(job, [max_samples=kms], [bogus=1]) *)
 | ORun (seq : bool)                                    (* run_parallel / run_sequential *)
 | ORerun (seq repl : bool)                             (* rerun_failed_parallel / rerun_failed_sequential *)
-| OProgress.                                           (* progress(), list_successful/active/unsuccessful_jobs() *)
+| OProgress                                            (* progress(), list_successful/active/unsuccessful_jobs() *)
+| OReadd (k : nat).                                    (* group.add(group[k]) for a job of the group that was sent *)
 
 (* the caller's own job.execute_async() before adding the job *)
 Definition pre_exec (j : job) (sc : script) (lg : list req) : job * script * list req :=
@@ -404,6 +405,11 @@ Definition step (c : cfg) (m0 : mach) (o : op) : mach * outcome :=
   | ORun seq => launch c false seq false m
   | ORerun seq repl => launch c true seq repl m
   | OProgress => update_statuses m
+  | OReadd k =>
+      match nth_error (mem m) k with
+      | Some j => if sent j then add_job c m j None false else (m, Returned)   (* the driver skips unsent jobs *)
+      | None => (m, Returned)
+      end
   end.
 
 (* JobGroup(name) on a fresh directory: empty list, written at once *)
